@@ -122,6 +122,13 @@ func InModule(fn *ssa.Function) bool { return inModule(fn) }
 
 // NewAlias prepares the engine over all module functions.
 func NewAlias(c *Ctx) *Alias {
+	a := newCallResolver(c)
+	a.collect()
+	return a
+}
+
+// newCallResolver builds only the call-resolution part (VTA ∪ CHA) of the engine.
+func newCallResolver(c *Ctx) *Alias {
 	a := &Alias{C: c, callees: map[ssa.CallInstruction][]*ssa.Function{}, provMemo: map[ssa.Value][]Root{}, inProg: map[ssa.Value]bool{},
 		Tainted: map[Root]string{}, fwd: map[Root][]Root{}, bwd: map[Root][]Root{}}
 	for fn := range c.AllFunctions() {
@@ -143,14 +150,14 @@ func NewAlias(c *Ctx) *Alias {
 		}
 	}
 	cha := c.CHA()
+	had := map[ssa.CallInstruction]bool{}
+	for site := range a.callees {
+		had[site] = true
+	}
 	for _, fn := range a.Fns {
 		n := cha.Nodes[fn]
 		if n == nil {
 			continue
-		}
-		had := map[ssa.CallInstruction]bool{}
-		for site := range a.callees {
-			had[site] = true
 		}
 		for _, e := range n.Out {
 			if e.Site == nil || had[e.Site] {
@@ -159,7 +166,6 @@ func NewAlias(c *Ctx) *Alias {
 			a.callees[e.Site] = append(a.callees[e.Site], e.Callee.Func)
 		}
 	}
-	a.collect()
 	return a
 }
 
@@ -414,7 +420,7 @@ var extWriters = map[string][]int{
 	"slices.Sort": {0}, "slices.SortFunc": {0}, "slices.SortStableFunc": {0}, "slices.Reverse": {0}, "slices.Insert": {0}, "slices.Delete": {0},
 	"slices.Compact": {0}, "slices.CompactFunc": {0},
 	"io.ReadFull": {1}, "io.ReadAtLeast": {1}, "(io.Reader).Read": {1},
-	"encoding/binary.Read": {2},
+	"encoding/binary.Read":                     {2},
 	"(encoding/binary.littleEndian).PutUint16": {1}, "(encoding/binary.littleEndian).PutUint32": {1}, "(encoding/binary.littleEndian).PutUint64": {1},
 	"maps.Copy": {0}, "maps.DeleteFunc": {0},
 	"crypto/rand.Read": {0},
